@@ -20,6 +20,7 @@ import (
 	"github.com/nuts-foundation/nuts-node/jsonld"
 	"github.com/nuts-foundation/nuts-node/policy"
 	"github.com/nuts-foundation/nuts-node/vcr"
+	cryptoAPI "github.com/nuts-foundation/nuts-node/crypto/api/v1"
 	vcrAPI "github.com/nuts-foundation/nuts-node/vcr/api/vcr/v2"
 	vdrAPIv2 "github.com/nuts-foundation/nuts-node/vdr/api/v2"
 	"github.com/nuts-foundation/nuts-node/vdr/resolver"
@@ -58,6 +59,7 @@ func (w *World) webAfterNetwork(n *Node) {
 	n.Parts["auth"] = authInstance
 	n.Parts["policy"] = policyInstance
 	s := n.System
+	s.RegisterRoutes(&cryptoAPI.Wrapper{C: n.Crypto, K: didKeyResolver})
 	s.RegisterRoutes(&vdrAPIv2.Wrapper{VDR: n.VDR, SubjectManager: n.VDR})
 	s.RegisterRoutes(&vcrAPI.Wrapper{VCR: credentialInstance, ContextManager: jsonldInstance, SubjectManager: n.VDR})
 	s.RegisterRoutes(authIAMAPI.New(authInstance, credentialInstance, didKeyResolver, n.VDR, n.Storage, policyInstance, n.Crypto, jsonldInstance))
@@ -98,6 +100,17 @@ func (n *Node) Call(method, path string, body interface{}, hdr ...string) (int, 
 	}
 	rec := httptest.NewRecorder()
 	n.Echo.ServeHTTP(rec, req)
+	if n.W.RecordAPI {
+		n.W.apiMu.Lock()
+		if len(n.W.APILog) < 5000 {
+			hdrs := ""
+			for k, v := range rec.Header() {
+				hdrs += k + ": " + strings.Join(v, ",") + "\n"
+			}
+			n.W.APILog = append(n.W.APILog, append([]byte(method+" "+path+"\n"+hdrs), rec.Body.Bytes()...))
+		}
+		n.W.apiMu.Unlock()
+	}
 	return rec.Code, rec.Body.Bytes()
 }
 
